@@ -4,5 +4,5 @@ set -e
 export CARGO_NET_OFFLINE=true
 cd /verif/harness
 mkdir -p target
-cargo build --release --offline 2>&1 | tail -n 5
+cargo build --release --offline --features hooks 2>&1 | tail -n 5
 echo "setup ok"
